@@ -217,7 +217,7 @@ Definition null_guard (a b : node) : bool := clash_b a b && (negb (has_null_leaf
      LPos true   element by element, each pair compared recursively
      LPos false  element by element, each pair compared whole (--aoh position)
      LValue      as bags of whole elements (order disregarded)
-   The identity-key modes (--aoh key | deep) are not covered here. ---- *)
+     LKey d      as bags of records named by an identity key (--aoh key | deep) ---- *)
 Fixpoint forall2b {A} (f : A -> A -> bool) (l l' : list A) : bool :=
   match l, l' with
   | [], [] => true
@@ -242,20 +242,36 @@ Fixpoint bag_eqb {A} (eq : A -> A -> bool) (l l' : list A) : bool :=
               end
   end.
 
-Inductive lmode := LPos (deep : bool) | LValue.
-Definition list_mode (am : arr_opt) (hm : aoh_opt) (rels : list node) : option lmode :=
+Inductive lmode := LPos (deep : bool) | LValue | LKey (deep : bool).
+Definition list_mode (am : arr_opt) (hm : aoh_opt) (rels : list node) : lmode :=
   let plain := match am with ArrPosition => LPos true | ArrValue => LValue end in
   match rels with
   | NMap _ _ :: _ =>
       match hm with
-      | AohPosition => Some (match am with ArrPosition => LPos false | ArrValue => LValue end)
-      | AohDpos => Some plain
-      | AohValue => Some LValue
-      | AohKey | AohDeep => None
+      | AohPosition => match am with ArrPosition => LPos false | ArrValue => LValue end
+      | AohDpos => plain
+      | AohValue => LValue
+      | AohKey => LKey false
+      | AohDeep => LKey true
       end
-  | _ => Some plain
+  | _ => plain
   end.
 Definition unkeyed (hm : aoh_opt) : bool := match hm with AohKey | AohDeep => false | _ => true end.
+
+(* identity-key modes: the identity key of a list pair is the first key of the
+   first right-hand record; a record's identity value is the scalar it holds
+   under that key *)
+Definition first_key (els : list node) : option pyval :=
+  match els with NMap _ ((k, _) :: _) :: _ => Some (leaf_value k) | _ => None end.
+Definition id_val (K : pyval) (x : node) : option pyval :=
+  match x with
+  | NMap _ kvs => match assoc_key K kvs with Some (NLeaf _ v) => Some v | _ => None end
+  | _ => None
+  end.
+Definition id_or_none (K : pyval) (x : node) : pyval :=
+  match id_val K x with Some v => v | None => PNone end.
+Definition same_id (K : pyval) (x y : node) : bool :=
+  match id_val K x, id_val K y with Some u, Some v => py_eq u v | _, _ => false end.
 
 Fixpoint equiv (am : arr_opt) (hm : aoh_opt) (a b : node) {struct a} : bool :=
   match a, b with
@@ -272,18 +288,80 @@ Fixpoint equiv (am : arr_opt) (hm : aoh_opt) (a b : node) {struct a} : bool :=
   | NSeq i els, NSeq j els' =>
       tag_eqb (tag i) (tag j) &&
       match list_mode am hm els' with
-      | Some (LPos true) =>
+      | LPos true =>
           (fix go (l l' : list node) {struct l} : bool :=
              match l, l' with
              | [], [] => true
              | x :: r, y :: r' => equiv am hm x y && go r r'
              | _, _ => false
              end) els els'
-      | Some (LPos false) => forall2b data_eq els els'
-      | Some LValue => bag_eqb data_eq els els'
-      | None => false
+      | LPos false => forall2b data_eq els els'
+      | LValue => bag_eqb data_eq els els'
+      | LKey d =>
+          (* as many records, and every left record has a right record of the same
+             identity that is equal (key) / equivalent (deep) *)
+          match first_key els' with
+          | Some K =>
+              Nat.eqb (List.length els) (List.length els') &&
+              (fix go (l : list node) : bool :=
+                 match l with
+                 | [] => true
+                 | x :: r =>
+                     existsb (fun y => same_id K x y && (if d then equiv am hm x y else data_eq x y)) els'
+                     && go r
+                 end) els
+          | None => false
+          end
       end
   | _, _ => data_eq a b
+  end.
+
+(* ---- guard of finding F4 (identity-key modes, --arrays position): every
+   sequence pair the comparison reads by identity key is well keyed -- all
+   elements of both lists are records holding a scalar under the identity
+   key, with pairwise different identity values -- checked along the pairing
+   the modes define (mapping values by key, positional lists by position,
+   keyed lists by identity) ---- *)
+Definition keyed_list (K : pyval) (els : list node) : bool :=
+  forallb (fun x => match id_val K x with Some _ => true | None => false end) els &&
+  nodup_vals (map (id_or_none K) els).
+
+Fixpoint kguard (hm : aoh_opt) (a b : node) {struct a} : bool :=
+  match a, b with
+  | NMap _ kvs, NMap _ kvs' =>
+      (fix go (l : list (node * node)) : bool :=
+         match l with
+         | [] => true
+         | kv :: r =>
+             match assoc_key (leaf_value (fst kv)) kvs' with
+             | Some w => kguard hm (snd kv) w
+             | None => true
+             end && go r
+         end) kvs
+  | NSeq _ els, NSeq _ els' =>
+      match list_mode ArrPosition hm els' with
+      | LPos true =>
+          (fix go (l l' : list node) {struct l} : bool :=
+             match l, l' with
+             | x :: r, y :: r' => kguard hm x y && go r r'
+             | _, _ => true
+             end) els els'
+      | LKey d =>
+          match first_key els' with
+          | Some K =>
+              keyed_list K els && keyed_list K els' &&
+              (if d then
+                 (fix go (l : list node) : bool :=
+                    match l with
+                    | [] => true
+                    | x :: r => forallb (fun y => if same_id K x y then kguard hm x y else true) els' && go r
+                    end) els
+               else true)
+          | None => false
+          end
+      | _ => true
+      end
+  | _, _ => true
   end.
 
 (* the configuration selects the same pair of modes at every list *)
